@@ -28,7 +28,9 @@ def run_one(m, check, runs, wall):
         t0 = time.time()
         p = subprocess.run([os.path.join(rt.VERIF_ROOT, "check"), check, "--runs", str(runs), "--wall", str(wall), "--no-shrink"], env=env, stdout=subprocess.PIPE, stderr=subprocess.STDOUT, text=True, timeout=wall + 300)
         lines = [l for l in p.stdout.splitlines() if l.startswith("VIOLATION") or l.startswith("  clause=")]
-        return {"mutant": m["id"], "what": m["what"], "check": check, "exit": p.returncode, "detected": p.returncode == 1, "first": lines[:2], "wall_s": round(time.time() - t0, 1)}
+        replay_ok = sum(1 for l in p.stdout.splitlines() if l.startswith("  replay verified"))
+        replay_bad = sum(1 for l in p.stdout.splitlines() if l.startswith("  replay NOT verified"))
+        return {"mutant": m["id"], "what": m["what"], "check": check, "exit": p.returncode, "detected": p.returncode == 1, "first": lines[:2], "wall_s": round(time.time() - t0, 1), "replays_verified": replay_ok, "replays_not_verified": replay_bad}
     finally:
         shutil.rmtree(tmp, ignore_errors=True)
 
@@ -51,7 +53,7 @@ def main(argv):
             except Exception as e:
                 r = {"mutant": m["id"], "what": m["what"], "check": chk, "exit": -1, "detected": False, "first": ["", "ERROR %s" % e], "wall_s": 0}
             results.append(r)
-            print("%-4s %-4s %s  %s  (%.0fs)" % (r["mutant"], r["check"], "DETECTED" if r["detected"] else "MISSED(exit %d)" % r["exit"], (r["first"][1].strip()[:110] if len(r["first"]) > 1 else ""), r["wall_s"]), flush=True)
+            print("%-4s %-4s %s  %s  (%.0fs)" % (r["mutant"], r["check"], "DETECTED" if r["detected"] else "MISSED(exit %d)" % r["exit"], (r["first"][1].strip()[:110] if len(r["first"]) > 1 else "") + (" [replays verified %d, not %d]" % (r.get("replays_verified", 0), r.get("replays_not_verified", 0))), r["wall_s"]), flush=True)
     if not only:
         out = os.path.join(rt.VERIF_ROOT, "evidence", "sensitivity.json")
         json.dump({"results": results, "detected": sum(r["detected"] for r in results), "total": len(results)}, open(out, "w"), indent=1)
